@@ -159,8 +159,10 @@ CHECKS = {
              "and compared with the model (by key, by address, per service, walkable addresses, services of a peer), so stale "
              "caches, answers changed by asking, un-re-addable peers and verified blacklisted identities are caught. Exhaustive "
              "over all sequences of depth 5 (quick) / 6 (thorough) of the reduced alphabets, seeded sampling beyond.",
-        note="Direct histories on a Network object; get_introductions_from is executed but not compared (the statement does not "
-             "name it). Single-threaded."),
+        note="Direct histories on a Network object plus an in-situ family (every 40th case): the Network objects of live "
+             "multi-node runs (real handlers, RandomWalk, RandomChurn, loss, crashes, LRU sizes 1..3) are checked every "
+             "simulated second against their own authoritative containers and the addresses/keys of removed peers. "
+             "get_introductions_from is executed but not compared (the statement does not name it). Single-threaded."),
     "C13": dict(
         level="exploration", design="DESIGN.md 4/C13",
         technique=TECH + ": real Community nodes on real UDP/Dispatcher endpoints behind simulated cone NAT boxes (mapping + "
